@@ -13,7 +13,8 @@ RULE = ("Hypothesis draws (dims 1-4, alphabet 2-5 values per coordinate, history
         "reference model of draw / find repeats / redraw-that-many / substitute; non-trivial = the first draw contains at "
         "least one repeat; distinct = hash of the whole case. In half of the cases the same sampler object is then asked 1-2 more "
         "times (history grown by its own output / same shape with one older row altered / unrelated), each call judged by the "
-        "same reference model.")
+        "same reference model. Histories may be longer than 1024 / 2048 rows, and the search space handed along may have fewer "
+        "grid points than the history has rows.")
 ASSUMPTIONS = ["rows compare by exact float equality (small integer alphabet); no NaN rows"]
 SHARDS = {"quick": 4, "thorough": 16}
 
